@@ -17,9 +17,10 @@ import fnmatch
 
 ROOT = os.path.dirname(os.path.dirname(os.path.dirname(os.path.abspath(__file__))))
 SPEC = os.path.join(ROOT, "spec")
-WORK = os.path.join(ROOT, "work")
-EVID = os.path.join(ROOT, "evidence")
-REPLAYS = os.path.join(ROOT, "replays")
+_OUT = os.environ.get("VF_OUT_ROOT") or ROOT
+WORK = os.path.join(_OUT, "work")
+EVID = os.path.join(_OUT, "evidence")
+REPLAYS = os.path.join(_OUT, "replays")
 TLA_JAR = "/opt/veriftools/tla/tla2tools.jar"
 NCPU = min(16, os.cpu_count() or 1)
 
